@@ -48,7 +48,35 @@ def _templates() -> list[dict[str, Any]]:
     return progs
 
 
+def _sampled(n: int) -> list[dict[str, Any]]:
+    """thorough tier: additional templates sampled (deterministically) from the Engine-T families, those the compiler accepts
+    and that are small enough for one slice"""
+    from spec.families import programs
+
+    out = []
+    progs = [p for nm, p in programs("quick", 1) if not nm.startswith("F1.simple.all")]
+    step = max(1, len(progs) // (3 * n))
+    for p in progs[::step]:
+        text = es_ast.to_text(p)
+        if len(text) > 700:
+            continue
+        try:
+            from harness.pC01 import compile_text
+
+            compile_text(text)
+        except Exception:  # noqa
+            continue
+        out.append(p)
+        if len(out) >= n:
+            break
+    return out
+
+
+N_BASE = 6
+N_SAMPLED = 30
 PROGRAMS = _templates()
+if CASE is not None and CASE >= N_BASE:
+    PROGRAMS = PROGRAMS + _sampled(N_SAMPLED)
 TEMPLATES = [es_ast.to_text(p) for p in PROGRAMS]
 
 
@@ -190,8 +218,8 @@ OBLIGATIONS = [
      "what": "real compile() on the real parse tree of a template whose token positions are rewritten symbolically (dl line "
              "breaks and dc blanks inserted before token k): the ops do not change and every plain and macro source-map "
              "entry (line, column, call site) follows the token it was registered on",
-     "cases": list(range(len(TEMPLATES))), "timeout": {"quick": 280, "thorough": 900},
-     "bounds": "6 templates (simple statements incl. with/inline ctx; if/elseif/else with || headers; switch with "
+     "cases": {"quick": list(range(N_BASE)), "thorough": list(range(N_BASE + N_SAMPLED))}, "timeout": {"quick": 280, "thorough": 900},
+     "bounds": "quick: 6 templates; thorough: + 30 programs sampled from families F1-F4 (each anchored the same way). 6 templates (simple statements incl. with/inline ctx; if/elseif/else with || headers; switch with "
                "fall-through and default in the middle; while/for/forever with continue/break_loop/jump; message switch, call, "
                "coroutine, for-actor routine, position mark; macro with a nested macro call and an early return, called twice); k over every token, "
                "dl and dc unbounded non-negative integers",
